@@ -66,6 +66,15 @@ def monitor(run):
                 if c['cid'] in prev_left and c['left'] != prev_left[c['cid']] - 1:
                     yield (f'tick {t}: suspending container {c["cid"]} has {c["left"]} ticks left, had {prev_left[c["cid"]]} '
                            f'before this tick: its write-out did not advance (it can never reach its outcome)')
+            for c in p['suspending']:
+                if c['left'] is not None and c['left'] <= 0:
+                    yield (f'tick {t}: the write-out of container {c["cid"]} is over ({c["left"]} ticks left) but it is still '
+                           f'listed as suspending: it never reaches its outcome')
+            for c in p['active'] + p['suspending']:
+                want = run.info.get(c['cid'], {}).get('ops')
+                if want is not None and c['ops'] != want:
+                    yield (f'tick {t}: container {c["cid"]} holds operators {c["ops"]}, the accepted assignment listed '
+                           f'{want} (a container runs exactly the operators of its assignment, in that order)')
             for c in p['active']:
                 if c['completed']:
                     yield (f'tick {t}: container {c["cid"]} is finished but still sits in the running list: '
